@@ -375,6 +375,10 @@ func (m *fullMon) c08PodCreate(call *APICall, pod *corev1.Pod) {
 		m.v("C08/create-while-deleting", "Pod %s created for Job %s which is being deleted", pod.Name, cur.Name)
 		return
 	}
+	if dec := m.decidedAsSeenBy(call, rj); dec != "" {
+		m.v("C08/create-after-complete", "Pod %s created for Job %s although its completion strategy is already decided (%s) by what the controller had recorded and cached", pod.Name, cur.Name, dec)
+		return
+	}
 	if rj.Status.Condition.Finished != nil {
 		m.v("C08/create-after-finish", "Pod %s created for Job %s which is already finished (%s)", pod.Name, cur.Name, rj.Status.Condition.Finished.Result)
 		return
@@ -382,6 +386,110 @@ func (m *fullMon) c08PodCreate(call *APICall, pod *corev1.Pod) {
 	if jt != nil {
 		_ = jt
 	}
+}
+
+// decidedAsSeenBy evaluates the completion strategy on what the acting controller
+// knew: the task list of the Job version it read, refreshed with the Pods in its
+// own Pod cache. Returns "Success", "Failed" or "".
+func (m *fullMon) decidedAsSeenBy(call *APICall, rj *execution.Job) string {
+	if call == nil {
+		return ""
+	}
+	var proc *Proc
+	for _, p := range m.w.Procs {
+		if p.name == call.Proc {
+			proc = p
+		}
+	}
+	if proc == nil || proc.informers[ResPods] == nil {
+		return ""
+	}
+	type st struct {
+		hash               string
+		finished, succeeded bool
+	}
+	seen := map[string]*st{}
+	for _, tr := range rj.Status.Tasks {
+		h := "gezdqo"
+		if tr.ParallelIndex != nil {
+			h = m.indexHash(rj, tr.ParallelIndex)
+		}
+		seen[tr.Name] = &st{hash: h, finished: tr.FinishTimestamp != nil, succeeded: tr.Status.Result == execution.TaskSucceeded}
+	}
+	apply := func(p *corev1.Pod) {
+		if ref := metav1.GetControllerOf(p); ref == nil || ref.UID != rj.UID {
+			return
+		}
+		x := seen[p.Name]
+		if x == nil {
+			return // only tasks the Job has recorded take part
+		}
+		if p.Status.Phase == corev1.PodSucceeded {
+			x.finished, x.succeeded = true, true
+		} else if p.Status.Phase == corev1.PodFailed {
+			x.finished = true
+		}
+	}
+	// only what the acting sync itself read counts (the cache may have moved on since)
+	// a recorded, unfinished task whose Pod the sync looked up and did not find (and which is
+	// really gone) is finished without success from the controller's point of view
+	for name, x := range seen {
+		if x.finished {
+			continue
+		}
+		if rv, ok := call.ReadRV["pods/"+rj.Namespace+"/"+name]; ok && rv == "" && m.w.API.Peek(ResPods, rj.Namespace, name) == nil {
+			x.finished = true
+		}
+	}
+	// and the Pod versions the acting sync actually read (they may have left the cache since)
+	for k, rv := range call.ReadRV {
+		if strings.HasPrefix(k, "pods/") && rv != "" {
+			if pv := m.t.podByRV[rv]; pv != nil {
+				apply(pv)
+			}
+		}
+	}
+	succ := map[string]bool{}
+	fails := map[string]int{}
+	for _, x := range seen {
+		if x.hash == "" {
+			return "" // cannot attribute: stay silent
+		}
+		if x.succeeded {
+			succ[x.hash] = true
+		} else if x.finished {
+			fails[x.hash]++
+		}
+	}
+	n := numIndexes(rj)
+	max := int(rj.GetMaxAttempts())
+	nsucc, nexh := 0, 0
+	for h := range succ {
+		_ = h
+		nsucc++
+	}
+	for h, c := range fails {
+		if !succ[h] && c >= max {
+			nexh++
+		}
+	}
+	switch strategyOf(rj) {
+	case execution.AnySuccessful:
+		if nsucc > 0 {
+			return "Success"
+		}
+		if nexh >= n {
+			return "Failed"
+		}
+	default:
+		if nsucc >= n {
+			return "Success"
+		}
+		if nexh > 0 {
+			return "Failed"
+		}
+	}
+	return ""
 }
 
 // indexHash finds the hash of a parallel index by matching it against the
@@ -426,8 +534,18 @@ type indexTruth struct {
 	created    int
 }
 
-func (m *fullMon) truthByIndex(juid string) map[string]*indexTruth {
+func (m *fullMon) truthByIndex(juid string, alsoRecorded ...*execution.Job) map[string]*indexTruth {
 	out := map[string]*indexTruth{}
+	recNow := map[string]bool{}
+	for _, j := range alsoRecorded {
+		if j != nil {
+			for _, r := range j.Status.Tasks {
+				if r.Status.Result == execution.TaskSucceeded {
+					recNow[r.Name] = true
+				}
+			}
+		}
+	}
 	for _, pc := range m.t.podCreates[juid] {
 		it := out[pc.hash]
 		if it == nil {
@@ -440,8 +558,9 @@ func (m *fullMon) truthByIndex(juid string) map[string]*indexTruth {
 			continue
 		}
 		jt := m.t.jobsByUID[juid]
+		byCtrl := func(a string) bool { return strings.Contains(a, "/job/") || strings.HasPrefix(a, "anon:") }
 		killedUnseen := tr.Finished != nil && tr.Outcome == "succeed" && tr.Gone != nil &&
-			(strings.Contains(tr.GoneBy, "/job/") || strings.HasPrefix(tr.GoneBy, "anon:")) && jt != nil && !jt.recordedSucceeded[pc.name]
+			(byCtrl(tr.GoneBy) || byCtrl(tr.DelBy)) && jt != nil && !jt.recordedSucceeded[pc.name] && !recNow[pc.name]
 		switch {
 		case killedUnseen:
 			// the controller deleted the task (e.g. pending timeout judged on a stale cache) before it
@@ -487,7 +606,7 @@ func strategyOf(j *execution.Job) execution.ParallelCompletionStrategy {
 
 // decided returns ("Success"|"Failed"|"") implied by the ground truth.
 func (m *fullMon) decided(j *execution.Job) string {
-	truth := m.truthByIndex(string(j.UID))
+	truth := m.truthByIndex(string(j.UID), j)
 	n := numIndexes(j)
 	max := int(j.GetMaxAttempts())
 	succ, exhausted := 0, 0
@@ -888,6 +1007,9 @@ func (m *fullMon) c12PodDelete(c *APICall, now time.Time) {
 	if m.decided(rj) != "" {
 		reasons = append(reasons, "strategy-decided-truth")
 	}
+	if m.decidedAsSeenBy(c, rj) != "" {
+		reasons = append(reasons, "strategy-decided-as-seen")
+	}
 	if rj.DeletionTimestamp != nil {
 		reasons = append(reasons, "job-deleting")
 	}
@@ -1200,6 +1322,36 @@ func (m *fullMon) fixpoint() {
 			}
 			if !now.Before(fin.FinishTimestamp.Add(time.Duration(ttl)*time.Second + 2*time.Second)) {
 				m.v("C13/ttl-not-deleted", "%s finished %s with effective TTL %ds but still exists at fixpoint (%s)", fmtJob(j), fmtT(fin.FinishTimestamp.Time), ttl, fmtT(now))
+			}
+		}
+	}
+	if s.stopped {
+		return
+	}
+	// --- tasks that ignore deletion are force-deleted after the timeout (C12), for Jobs that are not being deleted
+	if ft := dyn.Jobs.ForceDeleteTaskTimeoutSeconds; ft != nil && *ft > 0 && len(m.t.dynHist) == 1 {
+		for _, o := range api.ListRaw(ResPods) {
+			p := o.(*corev1.Pod)
+			if p.DeletionTimestamp == nil || podTerminal(p) {
+				continue
+			}
+			ref := metav1.GetControllerOf(p)
+			if ref == nil || ref.Kind != "Job" {
+				continue
+			}
+			j := m.t.jobByUID(string(ref.UID))
+			if j == nil || j.DeletionTimestamp != nil || (j.Spec.Template != nil && j.Spec.Template.ForbidTaskForceDeletion) {
+				continue
+			}
+			byCtrl := false
+			for _, ev := range api.log[ResPods] {
+				if ev.Key == p.Namespace+"/"+p.Name && ev.Verb == "delete" && (strings.Contains(ev.Actor, "/job/") || strings.HasPrefix(ev.Actor, "anon:")) {
+					byCtrl = true
+				}
+			}
+			if byCtrl && !now.Before(p.DeletionTimestamp.Add(time.Duration(*ft)*time.Second+2*time.Second)) {
+				m.v("C12/not-force-deleted", "Pod %s of %s ignores its deletion (deletionTimestamp %s), force deletion is enabled (%ds) and not forbidden, but it still exists at fixpoint (%s)", p.Name, fmtJob(j), fmtT(p.DeletionTimestamp.Time), *ft, fmtT(now))
+				break
 			}
 		}
 	}
